@@ -1,9 +1,9 @@
 #!/bin/sh
-# tools/tryrefactors_stored.sh : run every quick check against each stored behaviour-preserving change (preserving/*/patch.diff);
+# tools/tryrefactors_stored.sh [dir] : run every quick check against each stored behaviour-preserving change (<dir>/*/patch.diff, default preserving);
 # anything but exit 0 is a false alarm (a patch that no longer applies to the current /repo head is reported as such)
 cd "$(dirname "$0")/.." || exit 2
 ALL=C01,C02,C03,C04,C05,C06,C07,C08,C09,C10,C11,C12,C13,C14,C15,C16,C17,C18,C19,C20
-for d in preserving/R*; do
+for d in ${1:-preserving}/[RS]*; do
   echo "=== $d"
   tools/trymut.py $ALL --patch $d/patch.diff 2>&1 | grep "^== \|VIOLATION\|INCONCLUSIVE\|clause=\|rejects\|FAILED\|does not apply\|DOES NOT" | grep -v "exit 0" | head -12
 done
